@@ -155,30 +155,41 @@ Proof.
     intros j. specialize (Hfs (Datatypes.S j)). cbn [nth_error] in Hfs. rewrite Hfs. f_equal. clear; lia.
 Qed.
 
+Lemma count_active_clear_others_le : forall l i, (count_active (clear_others i l) <= 1)%nat.
+Proof.
+  induction l as [|a r IH]; intros [|i]; cbn [clear_others]; try (cbn; lia).
+  - rewrite count_active_cons, count_active_blank. destruct (is_none a); lia.
+  - rewrite count_active_cons. cbn [is_none]. apply IH.
+Qed.
+
 Lemma construct_default_shape : forall q db defs tid c o,
   nth_error db tid = Some c -> construct_with TG PW q db defs tid [] = Ok o ->
-  exists dslots, o = PObj tid dslots /\ length dslots = length (c_fields c) /\ dinv defs c dslots.
+  exists dslots, o = PObj tid dslots /\ length dslots = length (c_fields c) /\ dinv defs c dslots /\
+                 (c_union c = true -> (count_active dslots <= 1)%nat).
 Proof.
   intros q db defs tid c o Ec H. unfold construct_with in H. rewrite Ec in H.
   assert (B : dinv defs c (map (fun _ : ftype => PNone) (c_fields c))).
   { intros j t s _ Es. left. eapply nth_error_map_const; eauto. }
   destruct (c_union c) eqn:U.
   - rewrite ctor_union_nil in H. cbn [bind] in H. destruct (c_fields c) as [|f0 fs] eqn:F.
-    + inversion H; subst. eexists; split; [reflexivity|]. split; [reflexivity|exact B].
+    + inversion H; subst. eexists; split; [reflexivity|]. split; [reflexivity|]. split; [exact B|]. intros _. cbn. lia.
     + destruct (set_slot TG PW q c (map (fun _ : ftype => PNone) (f0 :: fs)) 0 (default_arg PW defs f0)) as [s' [e|]] eqn:SS;
         [discriminate|]. inversion H; subst o.
       assert (Ef : nth_error (c_fields c) 0 = Some f0) by (rewrite F; reflexivity).
       rewrite <- F in B. assert (SS' := SS). rewrite <- F in SS'.
       destruct (set_slot_default_inv q defs c _ 0 f0 s' B Ef SS') as [Inv' L'].
-      eexists; split; [reflexivity|]. split; [rewrite L', map_length, F; reflexivity | exact Inv'].
+      eexists; split; [reflexivity|]. split; [rewrite L', map_length, F; reflexivity |]. split; [exact Inv'|]. intros _.
+      apply set_slot_cases in SS'. destruct SS' as [[_ [e He]]|[_ (f' & v & _ & _ & ->)]]; [discriminate|].
+      rewrite U. apply count_active_clear_others_le.
   - destruct (ctor_struct TG PW q defs c (c_fields c) 0 [] (map (fun _ : ftype => PNone) (c_fields c))) as [out|] eqn:CS;
       cbn [bind] in H; [|discriminate]. inversion H; subst o.
     apply ctor_struct_default in CS; [|intros j; reflexivity|exact B]. destruct CS as [Inv' L'].
-    eexists; split; [reflexivity|]. split; [rewrite L'; apply map_length | exact Inv'].
+    eexists; split; [reflexivity|]. split; [rewrite L'; apply map_length |]. split; [exact Inv'|]. intros; discriminate.
 Qed.
 
 Lemma default_shape : forall q db tid c, db_defaults_ok q db = true -> nth_error db tid = Some c ->
   exists dslots, default_obj TG PW q db tid = PObj tid dslots /\ length dslots = length (c_fields c) /\
+    (c_union c = true -> (count_active dslots <= 1)%nat) /\
     forall j t s, nth_error (c_fields c) j = Some (FScalar (EComp t)) -> nth_error dslots j = Some s ->
                   s = PNone \/ s = default_obj TG PW q db t.
 Proof.
@@ -189,8 +200,8 @@ Proof.
     unfold default_obj. apply nth_In. rewrite defaults_length. exact Ht. }
   destruct (default_obj_spec q db tid Ht) as (defs & Hdefs & E).
   destruct (construct_with TG PW q db defs tid []) as [o|] eqn:C; [|rewrite E in Nn; discriminate].
-  destruct (construct_default_shape q db defs tid c o Ec C) as (dslots & -> & L & Inv).
-  exists dslots. split; [exact E|]. split; [exact L|].
+  destruct (construct_default_shape q db defs tid c o Ec C) as (dslots & -> & L & Inv & Cnt).
+  exists dslots. split; [exact E|]. split; [exact L|]. split; [exact Cnt|].
   intros j t s Ej Es. destruct (Inv j t s Ej Es) as [Hs|Hs]; subst s; [left; reflexivity|]. destruct (Hdefs t) as [Ht'|Ht']; rewrite Ht'; auto.
 Qed.
 
@@ -324,7 +335,6 @@ Definition is_comp_scalar (f : ftype) : bool := match f with FScalar (EComp _) =
 Section Main.
   Variable q : bool.
   Variable db : tdb.
-  Hypothesis Hwok : db_wok db = true.
   Hypothesis Hstr : db_strok db = true.
   Hypothesis Hdef : db_defaults_ok q db = true.
 
@@ -469,7 +479,7 @@ Section Main.
     forall i kvi, tb_go db fs sl i = Some kvi ->
     (forall j, nth_error fs j = nth_error (c_fields c) (i + j)) ->
     forall kv0 cpre csl, (forall j, (i <= j)%nat -> lookup j kv0 = lookup j kvi) ->
-    length cpre = i -> Forall2 dflt_hyp fs csl -> count_active (cpre ++ csl) = 1%nat ->
+    length cpre = i -> Forall2 dflt_hyp fs csl -> (count_active (cpre ++ csl) <= 1)%nat ->
     ufb_loop TG PW q db rec c fs i kv0 (cpre ++ csl) = (map (fun _ => PNone) cpre ++ sl, None).
   Proof.
     intros rec n c U HR fs sl H2.
@@ -548,9 +558,8 @@ Section Main.
     induction n as [|n IH]; intros tid slots b G Dn Hb.
     - cbn [vdepth] in Dn. exfalso. clear - Dn. lia.
     - destruct (good_obj tid slots G) as (c & Ec & Of & Os & Rs & Gs).
-      destruct (default_shape q db tid c Hdef Ec) as (dslots & Ed & Ld & Hdd).
-      pose proof (default_obj_ok q db false (or_introl eq_refl) Hwok tid) as Wd.
-      rewrite Ed in Wd |- *. rewrite ufb_S, Ec. rewrite tb_PObj, Ec in Hb.
+      destruct (default_shape q db tid c Hdef Ec) as (dslots & Ed & Ld & Cd & Hdd).
+      rewrite Ed. rewrite ufb_S, Ec. rewrite tb_PObj, Ec in Hb.
       destruct (tb_go db (c_fields c) slots 0) as [kv|] eqn:Eg; [|discriminate].
       cbn [option_map] in Hb. inversion Hb; subst b. cbn [ufb_kv].
       unfold obj_ok in Of. apply andb_true_iff in Of. destruct Of as [Hf Hc].
@@ -566,9 +575,8 @@ Section Main.
       assert (Loop : ufb_loop TG PW q db (ufb TG PW q db n) c (c_fields c) 0 kv dslots = (slots, None)).
       { destruct (c_union c) eqn:U.
         - apply Nat.eqb_eq in Hc.
-          cbn [wfv] in Wd. rewrite Ec in Wd. apply andb_true_iff in Wd. destruct Wd as [Od _].
-          unfold obj_ok in Od. rewrite U in Od. apply andb_true_iff in Od. destruct Od as [_ Cd]. apply Nat.eqb_eq in Cd.
-          exact (loop_union2 _ n c U IH _ _ H2 Hc 0%nat kv Eg (fun j => eq_refl) kv [] dslots (fun j _ => eq_refl) eq_refl Hd2 Cd).
+          exact (loop_union2 _ n c U IH _ _ H2 Hc 0%nat kv Eg (fun j => eq_refl) kv [] dslots (fun j _ => eq_refl) eq_refl Hd2
+                   (Cd eq_refl)).
         - exact (loop_struct2 _ n c U IH _ _ H2 0%nat kv Eg (fun j => eq_refl) kv [] dslots (fun j _ => eq_refl) eq_refl Hd2). }
       rewrite Loop.
       assert (existsb (fun p => Nat.leb (length (c_fields c)) (fst p)) kv = false) as ->; [|reflexivity].
@@ -578,12 +586,117 @@ Section Main.
 End Main.
 
 Theorem builtin_roundtrip : forall q db fuel tid slots b,
-  db_wok db = true -> db_strok db = true -> db_defaults_ok q db = true ->
+  db_strok db = true -> db_defaults_ok q db = true ->
   let o := PObj tid slots in
   wfv PW db false o = true -> (q = false -> wfv PW db true o = true) -> rt_ok q db o = true ->
   tb db o = Some b -> (vdepth o <= fuel)%nat ->
   ufb TG PW q db fuel (default_obj TG PW q db tid) b = (o, None).
 Proof.
-  intros q db fuel tid slots b Hwok Hstr Hdef o W Ws R Hb Dn.
-  apply (rt_main q db Hwok Hstr Hdef fuel tid slots b); [repeat split; assumption | exact Dn | exact Hb].
+  intros q db fuel tid slots b Hstr Hdef o W Ws R Hb Dn.
+  apply (rt_main q db Hstr Hdef fuel tid slots b); [repeat split; assumption | exact Dn | exact Hb].
 Qed.
+
+(* ================================================================ the hypotheses are satisfiable and cannot be dropped *)
+(* all premises of builtin_roundtrip as one boolean *)
+Definition rt_premises (q : bool) (db : tdb) (fuel tid : nat) (slots : list pyval) : bool :=
+  db_strok db && db_defaults_ok q db && wfv PW db false (PObj tid slots) && (q || wfv PW db true (PObj tid slots))
+  && rt_ok q db (PObj tid slots) && Nat.leb (vdepth (PObj tid slots)) fuel.
+
+Corollary builtin_roundtrip_b : forall q db fuel tid slots b, rt_premises q db fuel tid slots = true ->
+  tb db (PObj tid slots) = Some b ->
+  ufb TG PW q db fuel (default_obj TG PW q db tid) b = (PObj tid slots, None).
+Proof.
+  intros q db fuel tid slots b H Hb. unfold rt_premises in H.
+  repeat (apply andb_true_iff in H; let H' := fresh "P" in destruct H as [H H']).
+  apply builtin_roundtrip; auto.
+  - intros Hq. subst q. exact P1.
+  - apply Nat.leb_le. exact P.
+Qed.
+
+Ltac vm1 := vm_compute; reflexivity.
+Tactic Notation "vmc" integer(n) := cbv zeta; do n (split; [vm1|]); eexists; (split; [vm1|]); vm1.
+
+(* a data base with a struct, a union that selects a struct, and a struct nesting both, an array of structs, a string
+   and a float16 array; the instance satisfies every premise for both variants *)
+Definition ex_db : tdb :=
+  [ {| c_union := false; c_fields := [FScalar (EPrim (KU 8)); FArr false 3 false (EPrim (KF 16))] |};
+    {| c_union := true;  c_fields := [FScalar (EPrim KBool); FScalar (EComp 0)] |};
+    {| c_union := false; c_fields := [FScalar (EComp 1); FArr false 2 false (EComp 0); FArr false 4 true (EPrim (KU 8))] |} ].
+Definition ex_obj_slots : list pyval :=
+  [ PObj 1 [PNone; PObj 0 [PInt 5; PArr (DF 16) [PFloat 4607182418800017408]]];
+    PArr DObj [PObj 0 [PInt 1; PArr (DF 16) []]; PObj 0 [PInt 2; PArr (DF 16) [PFloat 4602678819172646912; PFloat 4679235614791434240]]];
+    PArr (DU 8) [PInt 104; PInt 105] ].
+
+Theorem builtin_roundtrip_example : forall q,
+  rt_premises q ex_db 3 2 ex_obj_slots = true /\
+  exists b, tb ex_db (PObj 2 ex_obj_slots) = Some b /\
+            ufb TG PW q ex_db 3 (default_obj TG PW q ex_db 2) b = (PObj 2 ex_obj_slots, None).
+Proof.
+  intros q. assert (P : rt_premises q ex_db 3 2 ex_obj_slots = true) by (destruct q; vm_compute; reflexivity).
+  split; [exact P|]. eexists. split; [vm_compute; reflexivity|]. apply builtin_roundtrip_b; [exact P|]. vm_compute. reflexivity.
+Qed.
+
+(* the template does not check the class of the elements of an array of composites *)
+Theorem composite_array_elem_unchecked : forall q,
+  field_value TG PW q (FArr false 2 false (EComp 0)) (PList [PInt 1]) = Ok (PArr DObj [PInt 1]).
+Proof. intros q; destruct q; vm_compute; reflexivity. Qed.
+
+(* db_defaults_ok: type 0 refers to a later type, its default constructor raises, update_from_builtin has no T() *)
+Theorem roundtrip_needs_defaults : forall q,
+  let db := [ {| c_union := false; c_fields := [FScalar (EComp 1)] |}; {| c_union := false; c_fields := [] |} ] in
+  let slots := [PObj 1 []] in
+  db_strok db = true /\ db_defaults_ok q db = false /\
+  wfv PW db true (PObj 0 slots) = true /\ wfv PW db false (PObj 0 slots) = true /\ rt_ok q db (PObj 0 slots) = true /\
+  exists b, tb db (PObj 0 slots) = Some b /\
+            ufb TG PW q db 5 (default_obj TG PW q db 0) b = (PNone, Some AttributeError).
+Proof. intros q; destruct q; vmc 5. Qed.
+
+(* db_strok: a string-like array of int8 comes out of to_builtin as a str, which the non-bytes path cannot convert *)
+Theorem roundtrip_needs_strok : forall q,
+  let db := [ {| c_union := false; c_fields := [FArr false 4 true (EPrim (KS 8))] |} ] in
+  let slots := [PArr (DS 8) [PInt 65]] in
+  db_strok db = false /\ db_defaults_ok q db = true /\
+  wfv PW db true (PObj 0 slots) = true /\ wfv PW db false (PObj 0 slots) = true /\ rt_ok q db (PObj 0 slots) = true /\
+  exists b, tb db (PObj 0 slots) = Some b /\
+            snd (ufb TG PW q db 5 (default_obj TG PW q db 0) b) = Some ValueError.
+Proof. intros q; destruct q; vmc 5. Qed.
+
+(* rt_ok, instances: an element of another class is rebuilt as an instance of the declared element class *)
+Theorem roundtrip_needs_elems_inst : forall q,
+  let db := [ {| c_union := false; c_fields := [] |}; {| c_union := false; c_fields := [] |};
+              {| c_union := false; c_fields := [FArr false 2 false (EComp 0)] |} ] in
+  let slots := [PArr DObj [PObj 1 []]] in
+  db_strok db = true /\ db_defaults_ok q db = true /\
+  wfv PW db true (PObj 2 slots) = true /\ wfv PW db false (PObj 2 slots) = true /\ rt_ok q db (PObj 2 slots) = false /\
+  exists b, tb db (PObj 2 slots) = Some b /\
+            ufb TG PW q db 5 (default_obj TG PW q db 2) b = (PObj 2 [PArr DObj [PObj 0 []]], None).
+Proof. intros q; destruct q; vmc 5. Qed.
+
+(* rt_ok, representable floats: 1 + 2^-52 in a float16 array comes back as 1.0 *)
+Theorem roundtrip_needs_float_repr :
+  let db := [ {| c_union := false; c_fields := [FArr false 2 false (EPrim (KF 16))] |} ] in
+  let slots := [PArr (DF 16) [PFloat 4607182418800017409]] in
+  db_strok db = true /\ db_defaults_ok true db = true /\
+  wfv PW db true (PObj 0 slots) = true /\ wfv PW db false (PObj 0 slots) = true /\ rt_ok true db (PObj 0 slots) = false /\
+  exists b, tb db (PObj 0 slots) = Some b /\
+            ufb TG PW true db 5 (default_obj TG PW true db 0) b = (PObj 0 [PArr (DF 16) [PFloat 4607182418800017408]], None).
+Proof. vmc 5. Qed.
+
+(* rt_ok, float range (conformant variant only): 2^1000 in a float40 array (stored as float64, so representable) is what
+   the quirky variant stores, the conformant setter rejects it *)
+Theorem roundtrip_needs_float_range :
+  let db := [ {| c_union := false; c_fields := [FArr false 2 false (EPrim (KF 40))] |} ] in
+  let slots := [PArr (DF 64) [PFloat 9110782046170513408]] in
+  db_strok db = true /\ db_defaults_ok false db = true /\
+  wfv PW db true (PObj 0 slots) = true /\ wfv PW db false (PObj 0 slots) = true /\
+  rt_ok false db (PObj 0 slots) = false /\ rt_ok true db (PObj 0 slots) = true /\
+  exists b, tb db (PObj 0 slots) = Some b /\
+            snd (ufb TG PW false db 5 (default_obj TG PW false db 0) b) = Some ValueError.
+Proof. vmc 6. Qed.
+
+(* fuel: one level of recursion per nesting level *)
+Theorem roundtrip_needs_fuel : forall q,
+  rt_premises q ex_db 3 2 ex_obj_slots = true /\ rt_premises q ex_db 2 2 ex_obj_slots = false /\
+  exists b, tb ex_db (PObj 2 ex_obj_slots) = Some b /\
+            snd (ufb TG PW q ex_db 2 (default_obj TG PW q ex_db 2) b) = Some TypeError.
+Proof. intros q; destruct q; vmc 2. Qed.
